@@ -1,6 +1,6 @@
 CONSTANTS
   Defects = {"att_ignored"}
-  Family = "names"
+  Family = "names_small"
   Deep = FALSE
 INIT Init
 NEXT Next
